@@ -306,6 +306,13 @@ Definition fully_scanned_height (q : queue) (birthday_height : Z) : option Z :=
   | r :: _ => if rs r <=? birthday_height then Some (re r - 1) else None
   end.
 
+(** [chain_tip_height]: SELECT MAX(block_range_end) FROM scan_queue, minus one (saturating) *)
+Definition chain_tip_height (q : queue) : option Z :=
+  match q with
+  | [] => None
+  | x :: r => Some (hsub (fold_right (fun y a => Z.max (re y) a) (re x) r) 1)
+  end.
+
 (** ** operations as data (harness protocol) *)
 Inductive qop : Set :=
 | OpTip (new_tip : Z)
